@@ -245,6 +245,7 @@ def run(ctx):
                  if extra else 'trust_vector is reassigned after the sum was taken')), entry=cb.root)
     ctx.floor('NORMALISE-LAST', 1)
     numeric_rules(ctx, prog, cb)
+    jacobi_rule(ctx, prog, cb)
 
 
 def numeric_rules(ctx, prog, cb):
@@ -314,7 +315,20 @@ def numeric_rules(ctx, prog, cb):
     if site is None:
         ctx.ob('FACTOR-ENTRY', 'factor:first-report', False, cb.where(), 'compute_multi_factor_adjustment is no longer applied in compute_global_trust_internal')
     elif implicit is None:
-        ctx.ob('FACTOR-ENTRY', 'factor:first-report', True, site.where(), 'the multiplier is applied to every node (no implicit factor for nodes without statistics)')
+        # applied to every node: the statistics of a node without an entry must be the all-zero record (the derived Default), so
+        # that "no entry" equals "empty entry" and the first report is an ordinary step of the counters (FACTOR-MONOTONE above)
+        arg = cb.expr(site.args[1]) if len(site.args) > 1 else None
+        fb_ = arg.mentions_call(r'Option::<.*>::(unwrap_or|unwrap_or_else|unwrap_or_default|map_or|map_or_else)$') if arg is not None else None
+        okd = True
+        why = 'the statistics argument is not optional'
+        if fb_ is not None:
+            dflt = arg.mentions_call(r'<adaptive::trust::NodeStatistics as (std|core)::default::Default>::default$')
+            derived = any(i.get('derived') and str(i.get('self_ty')) == STATS and str(i.get('trait', '')).endswith('default::Default') for i in prog.impls)
+            okd = fb_.a.endswith('unwrap_or_default') or (dflt is not None)
+            okd = okd and derived
+            why = ('a node without an entry is given NodeStatistics::default() (derived: all counters 0)' if okd else
+                   'a node without an entry is given statistics other than the all-zero default (%s): its first report need not move the score in the reported direction' % fb_.brief(80))
+        ctx.ob('FACTOR-ENTRY', 'factor:first-report', okd, site.where(), 'the multiplier is applied to every node; %s' % why, entry=cb.root)
     else:
         first = {x: (0.0, 0.0) for x in ins}
         if 'correct_responses' in first:
@@ -345,6 +359,83 @@ def numeric_rules(ctx, prog, cb):
     ctx.floor('FACTOR-RANGE', 1)
     ctx.floor('FACTOR-MONOTONE', 2)
     ctx.floor('FACTOR-ENTRY', 1)
+
+
+def jacobi_rule(ctx, prog, cb):
+    """JACOBI — equal histories give equal scores only if a propagation round reads the previous vector and writes a fresh one:
+    inside one loop no score map (HashMap<_, f64>) may be both looked up by key (get / index / contains_key, or handed to an
+    in-crate callee by shared reference) and written by key (insert / get_mut / entry / index_mut / remove). An in-place sweep
+    makes every entry depend on the order in which the others were refreshed, i.e. on hash iteration order, and the rounds
+    are cut off long before convergence for large networks."""
+    scope = prog.reach([cb.root], depth=3)
+    nloops = 0
+    bad = []
+    for bid in sorted(scope):
+        b = prog.bodies[bid]
+        if b.file != cb.file or b.derived:
+            continue
+        ctx.touch(b)
+
+        def root_of(op):
+            e = b.expr(op).strip()
+            for _ in range(12):
+                if e.k in ('let',):
+                    e = e.c.strip()
+                elif e.k == 'call' and F.TRANSPARENT.match(e.a) and e.b:
+                    e = e.b[0].strip()
+                elif e.k == 'field':
+                    e = e.a.strip()
+                else:
+                    break
+            if e.k in ('param', 'local', 'let'):
+                return (e.k, e.a)
+            return None
+
+        def is_score_map(op):
+            t = L.operand_ty(b, op) or ''
+            if 'p' in op:
+                t = b.local_ty(op['p'][0])
+            return 'HashMap<' in t and 'f64' in t
+        loops = L.source_loops(b)
+        for h, ns in loops:
+            nloops += 1
+            reads, writes = {}, {}
+            for cs in b.calls():
+                if cs.bb not in ns or not cs.args:
+                    continue
+                if re.search(r'HashMap::<.*>::(get|contains_key|get_key_value)$|ops::Index<.*>>::index$', cs.callee):
+                    r0 = root_of(cs.args[0])
+                    if r0 is not None and _score_ty(b, r0):
+                        reads.setdefault(r0, cs)
+                elif re.search(r'HashMap::<.*>::(insert|get_mut|entry|remove|remove_entry)$|ops::IndexMut<.*>>::index_mut$', cs.callee):
+                    r0 = root_of(cs.args[0])
+                    if r0 is not None and _score_ty(b, r0):
+                        writes.setdefault(r0, cs)
+                elif cs.local and prog.has_body(cs.callee):
+                    for a in cs.args:
+                        r0 = root_of(a)
+                        if r0 is not None and _score_ty(b, r0):
+                            ty = L.operand_ty(b, a) or ''
+                            if ty.startswith('&mut'):
+                                writes.setdefault(r0, cs)
+                                reads.setdefault(r0, cs)
+                            else:
+                                reads.setdefault(r0, cs)
+            for m in reads:
+                if m in writes:
+                    bad.append((b, reads[m], writes[m], m))
+    ctx.ob('JACOBI', 'no-in-place-sweep', not bad, (bad[0][2].where() if bad else cb.where()),
+           ('%d loops of the trust computation inspected: no score map is both looked up and updated by key inside one loop (each round reads the '
+            'previous vector and builds a new one)' % nloops) if not bad else
+           ('%s: the score map `%s` is looked up (line %s) and written (line %s) inside the same loop — an in-place sweep whose result depends on '
+            'iteration order; equal histories need not give equal scores' % (bad[0][0].id.rsplit('::', 2)[-1] if bad[0][0].id.endswith('}') else bad[0][0].id.rsplit('::', 1)[-1],
+                                                                             bad[0][0].local_name(bad[0][3][1]) or bad[0][3][1], bad[0][1].ln, bad[0][2].ln)), entry=cb.root)
+    ctx.floor('JACOBI', 1)
+
+
+def _score_ty(b, r0):
+    t = b.local_ty(r0[1]) if isinstance(r0[1], int) and r0[1] < len(b.locals) else ''
+    return 'HashMap<' in t and 'f64' in t
 
 
 def on_tv_iter(cb, nxt, mutcall):
